@@ -125,6 +125,8 @@ def _run(prop, args, base_seed, t0):
     if hasattr(mod, "prepare"):
         env = mod.prepare(env, args.tier, base_seed)
     mod.worker_init(env)  # the parent re-executes violations (confirm, shrink) in pristine forked children
+    if "nsl" in sys.modules:
+        core.api_smoke()
     n_runs = args.runs
     budget = args.budget
     if args.tier == "quick":
@@ -185,7 +187,8 @@ def _run(prop, args, base_seed, t0):
         for r in unknown:
             groups.setdefault((r.get("oracle"), r.get("finding_key")), []).append(r)
         for (orc, fk), rs in list(groups.items())[:4]:
-            first = rs[0]
+            # a member that was itself re-executed alone (not merely one of an already confirmed class)
+            first = next((r for r in rs if not str(r.get("confirmed", "")).startswith("skipped")), rs[0])
             sc = first["scenario"]
             shrunk, evals = sc, 0
             if not args.no_shrink:
